@@ -365,6 +365,41 @@ def entry_point_logic(d):
     return out
 
 
+FOLD_FORMS = {
+    ("", "remove_input_attr"): "{inputs.into_iter().map(|input|matchinput{syn::FnArg::Receiver(rec)if!rec.attrs.is_empty()=>{letrec=Receiver{attrs:vec![],..rec};syn::FnArg::Receiver(rec)}syn::FnArg::Typed(ty)if!ty.attrs.is_empty()=>{letty=PatType{attrs:vec![],..ty};syn::FnArg::Typed(ty)}_=>input,}).collect()}",
+    ("StripInput", "fold_trait_item_fn"): "{letis_handler=i.attrs.iter().any(|attr|SylviaAttribute::new(attr)==Some(SylviaAttribute::Msg));letattrs=i.attrs.into_iter().filter(|attr|SylviaAttribute::new(attr).is_none()).collect();letinputs=ifis_handler{remove_input_attr(i.sig.inputs)}else{i.sig.inputs};letsig=Signature{inputs,..i.sig};fold::fold_trait_item_fn(self,TraitItemFn{attrs,sig,..i})}",
+    ("StripInput", "fold_impl_item_fn"): "{letis_handler=i.attrs.iter().any(|attr|SylviaAttribute::new(attr)==Some(SylviaAttribute::Msg));letattrs=i.attrs.into_iter().filter(|attr|SylviaAttribute::new(attr).is_none()).collect();letinputs=ifis_handler{remove_input_attr(i.sig.inputs)}else{i.sig.inputs};letsig=Signature{inputs,..i.sig};fold::fold_impl_item_fn(self,ImplItemFn{attrs,sig,..i})}",
+    ("StripInput", "fold_item_trait"): "{letattrs=i.attrs.into_iter().filter(|attr|SylviaAttribute::new(attr).is_none()).collect();fold::fold_item_trait(self,ItemTrait{attrs,..i})}",
+    ("StripInput", "fold_item_impl"): "{letattrs=i.attrs.into_iter().filter(|attr|SylviaAttribute::new(attr).is_none()).collect();fold::fold_item_impl(self,ItemImpl{attrs,..i})}",
+}
+SV_ATTR_NEW = "{letsegments=&attr.path().segments;ifsegments.len()==2&&segments[0].ident==\"sv\"{Self::match_attribute(&segments[1])}else{None}}"
+FRONT_ENDS = {
+    "interface_impl": "letinput=StripInput.fold_item_trait(input);Ok(quote!{#input#expanded})",
+    "contract_impl": "letinput=StripInput.fold_item_impl(input);Ok(quote!{#[allow(clippy::new_without_default)]#input#expanded})",
+    "entry_points_impl": "letexpanded=EntryPointInput::new(&input,args,attr.span()).process();Ok(quote!{#input#expanded})",
+}
+
+
+def strip_forms(d):
+    """the StripInput fold and the three macro front-ends must have the forms Model/Strip.lean mirrors"""
+    recognised = []
+    for (cont, name), want in FOLD_FORMS.items():
+        fn = d.fn("fold.rs", cont, name)
+        if fn is not None:
+            ok = fn["body"] == want
+            recognised.append((name, ok))
+            if not ok:
+                d.problems.append("fold.rs %s::%s no longer has the form the Strip model mirrors" % (cont, name))
+    fn = d.fn("parser/attributes/mod.rs", "SylviaAttribute", "new")
+    if fn is not None and fn["body"] != SV_ATTR_NEW:
+        d.problems.append("SylviaAttribute::new no longer has the recognised form (two-segment path starting with `sv`)")
+    for name, frag in FRONT_ENDS.items():
+        fn = d.fn("lib.rs", "", name)
+        if fn is not None and frag not in fn["body"]:
+            d.problems.append("lib.rs %s no longer re-emits `#input #expanded` in the recognised form" % name)
+    return recognised
+
+
 def kt(rows, val):
     return llist("(.%s, %s)" % (KINDS[k], val(v)) for k, v in rows)
 
@@ -398,6 +433,7 @@ def generate(dump_lines):
     renames = rename_all_sites(d)
     casings = casing_sites(d)
     ep = entry_point_logic(d)
+    strip_forms(d)
 
     o = []
     o.append("import Sylvia.Model.Kinds")
